@@ -9,6 +9,7 @@ from __future__ import print_function
 import sys
 import functools
 import logging
+import six
 # noinspection PyUnresolvedReferences
 from six.moves import range
 
@@ -89,21 +90,31 @@ class Decoder(Coder):
 
         nbits_decoded = 0
         section_index = 0  # Always start decoding from section 0
-        while True:
-            section = self.section_configurer.configure_section(bufr_message, section_index,
-                                                                configuration_transformers)
-            section_index += 1
-            if section is None:  # when optional section is not present
-                continue
-            nbits_decoded += self.process_section(bufr_message, bit_reader, section)
-            if section.end_of_message:
-                break
+        try:
+            while True:
+                section = self.section_configurer.configure_section(bufr_message, section_index,
+                                                                    configuration_transformers)
+                section_index += 1
+                if section is None:  # when optional section is not present
+                    continue
+                nbits_decoded += self.process_section(bufr_message, bit_reader, section)
+                if section.end_of_message:
+                    break
 
-        # The exact bytes that have been decoded
-        bufr_message.serialized_bytes = s[:nbits_decoded // NBITS_PER_BYTE]
+            # The exact bytes that have been decoded
+            bufr_message.serialized_bytes = s[:nbits_decoded // NBITS_PER_BYTE]
 
-        if not info_only and wire_template_data:
-            bufr_message.wire()
+            if not info_only and wire_template_data:
+                bufr_message.wire()
+
+        except PyBufrKitError:
+            raise
+        except Exception as e:
+            # The input is arbitrary bytes. A damaged message can lead the decoding
+            # anywhere (e.g. a corrupted section length turns data into descriptors).
+            # Whatever goes wrong, it is reported as the library's own error so that
+            # callers, e.g. generate_bufr_message, can handle it.
+            six.raise_from(PyBufrKitError('Cannot decode message: {}: {}'.format(type(e).__name__, e)), e)
 
         return bufr_message
 
